@@ -8,6 +8,7 @@ import (
 
 	"github.com/hack-pad/hackpadfs"
 	"github.com/hack-pad/hackpadfs/mem"
+	"github.com/hack-pad/hackpadfs/mount"
 	hos "github.com/hack-pad/hackpadfs/os"
 )
 
@@ -102,9 +103,26 @@ func runC07(t *T) {
 	n := 2 + c.Draw(18)
 	t.Logf("kind=%s steps=%d", k.name, n)
 	views := 0
+	keptViews := map[string]hackpadfs.FS{}
 	for i := 0; i < n; i++ {
 		if c.Chance(1, 2) {
 			// plain history step, applied to both instances directly
+			if ma, ok := A.(*mount.FS); ok && c.Chance(1, 8) {
+				// the composition itself changes: one more mount on both instances. Views taken earlier see it like
+				// their parent does
+				mb := B.(*mount.FS)
+				p := []string{"a", "m/a"}[c.Draw(2)]
+				applyOp(setupA, Op{Kind: "Mkdir", P: p, Perm: 0755})
+				applyOp(setupB, Op{Kind: "Mkdir", P: p, Perm: 0755})
+				na, _ := mem.NewFS()
+				nb, _ := mem.NewFS()
+				ea, eb := ma.AddMount(p, na), mb.AddMount(p, nb)
+				t.Logf("%d both AddMount(%q) -> %s", i, p, errClass(eb))
+				if errClass(ea) != errClass(eb) {
+					t.Infra("twin instances disagree on AddMount(%q): %v vs %v", p, ea, eb)
+				}
+				continue
+			}
 			o := g.next()
 			if (o.Kind == "Remove" || o.Kind == "RemoveAll" || o.Kind == "Rename") && (o.P == "." || o.Q == ".") {
 				continue
@@ -179,9 +197,19 @@ func runC07(t *T) {
 				continue // dir must be a directory (or missing); a regular file or a path through one is outside the property
 			}
 			o.Raw = joinView(dir, o.P) != "."
-			view, err := hackpadfs.Sub(A, dir)
-			if err != nil {
-				t.Fail("sub", "C07:"+k.name+":Sub-fails", fmt.Sprintf("Sub(%s, %q) failed: %v", k.name, dir, err))
+			// a view may be one taken earlier in the history and kept (a view is not a snapshot of its parent)
+			view, kept := keptViews[dir]
+			var err error
+			if !kept || c.Chance(1, 2) {
+				view, err = hackpadfs.Sub(A, dir)
+				if err != nil {
+					t.Fail("sub", "C07:"+k.name+":Sub-fails", fmt.Sprintf("Sub(%s, %q) failed: %v", k.name, dir, err))
+				}
+				if c.Chance(1, 2) {
+					keptViews[dir] = view
+				}
+			} else {
+				t.Stat("c07:kept-view-reused")
 			}
 			if c.Chance(1, 10) {
 				// a view of the view at a directory that would lead out of it must be refused
